@@ -51,6 +51,7 @@ int main(int argc, char** argv) {
   lsm_arena_init(1ull << 30);
   lsm_install_trap();
   alloc_track().on = 1;
+  const unsigned csr_at_start = __builtin_ia32_stmxcsr() & 0xFFC0u;
   Lsm L;
   add_simple_ops(L.ops);
   const size_t nsimple = L.ops.size();
@@ -69,6 +70,13 @@ int main(int argc, char** argv) {
   Ctx ctx(args);
   const bool th = args.thorough();
   L.init_shared();
+  {  // building the modules and tables of the alphabet must not have changed the floating-point control register of this thread
+    const unsigned csr_now = __builtin_ia32_stmxcsr() & 0xFFC0u;
+    std::string id = "setup|creating the modules and tables of the op alphabet";
+    if (ctx.want(id)) { ctx.begin_case(id);
+      if (csr_now != csr_at_start) ctx.violation(id, sfmt("constructors changed the MXCSR control bits of the calling thread (0x%x -> 0x%x): the same call then returns different bits in a thread that created the objects and in one that did not", csr_at_start, csr_now));
+      ctx.end_case(true); }
+  }
   L.report = [&](LsmKind k, const std::string& id, const std::string& msg) {
     if (ctx.args.replaying() && ctx.args.replay_id != id) return;
     if (k == LSM_IMM || k == LSM_WARM || k == LSM_CRASH) ctx.violation(id, msg);   // I-hist findings belong to C15
